@@ -9,9 +9,9 @@ SPEC = dict(
     design_ref="DESIGN.md §5 C04",
     technique="Lean 4 refinement proof by induction on a type descriptor (abs(merge a b) = join (abs a) (abs b)) + union-find forest/partition proof (same <-> Relation.EqvGen) + differential correspondence with the real lattices",
     level_text=("Part 1 (Props/C04.lean): a descriptor universe Max<u64>, Min<u64>, (), Conflict, SetUnion, MapUnion, WithBot, WithTop, "
-                "Pair (derive(Lattice)), VecUnion with `merge`/`lattice_from`/`is_bot` transcribed per impl, an abstraction `abs` into the "
+                "Pair (derive(Lattice)), VecUnion, DomPair<Max<u64>,_> with `merge`/`lattice_from`/`is_bot` transcribed per impl, an abstraction `abs` into the "
                 "mathematical object (number with max/min, option-lifted, membership predicate, key->Option value with absent keys and "
-                "bottom values both erased, product, finite sequence with extension, equal-or-conflict) and theorems, by induction on the "
+                "bottom values both erased, product, finite sequence with extension, equal-or-conflict, dominating-key pair) and theorems, by induction on the "
                 "descriptor hence for every nesting and every receiver representation (hash-like or Vec) with the other side an arbitrary "
                 "list (= any IntoIterator representation): merge_refines_join, merge_wf, latticeFrom_abs, merge_repr_independent, "
                 "history_refines_join (folds of merges), isBot_is_identity. Part 2 (Props/C04UF.lean): the parent map as association list, "
@@ -19,7 +19,7 @@ SPEC = dict(
                 "size+1; theorems find_fuel_suffices (pigeonhole bound on forests), find_preserves_same, union_preserves_forest, "
                 "reachable_forest, merge_is_partition_join and the property same_iff_eqvGen: after ANY list of union/merge/same operations "
                 "from the empty map, `same a b` is true iff Relation.EqvGen of all unioned/merged pairs relates a and b. No partial theorems. "
-                "Tie: the harness drives the real crate through 32 concrete nested types x receiver families (HashSet+HashMap, BTreeSet+BTreeMap, "
+                "Tie: the harness drives the real crate through 37 concrete nested types x receiver families (HashSet+HashMap, BTreeSet+BTreeMap, "
                 "Vec+HashMap) x other representations (Hash*, BTree*, Vec+VecMap, Vec+HashMap, Singleton, Option, Array) on single merges, "
                 "merge histories, lattice_from and is_bot, and UnionFind<HashMap>/<BTreeMap> with VecMap/BTreeMap/HashMap/Singleton/Option/"
                 "Array others on union/merge/same histories; every answer (flag, canonical value; for union-find the exact parent map after "
@@ -27,7 +27,7 @@ SPEC = dict(
                 "independent Rust implementation of the abstract join / an independent partition oracle."),
     level_note=("Trusted: Lean kernel + propext/Classical.choice/Quot.sound; std/hashbrown collections modelled as duplicate-free lists / "
                 "association lists; the refinement theorem assumes representable values (u64 range, distinct map keys: the documented "
-                "precondition of VecMap); Point and DomPair (not in the property's list of models) and Max/Min over other carriers than "
+                "precondition of VecMap); Point (merge panics on inequal values) and DomPair with a partially ordered key (not in the property's list of models) and Max/Min over other carriers than "
                 "u64 are not modelled; F8: find may diverge on cyclic maps built with UnionFind::new — outside the domain (reachable_forest), "
                 "never executed; lattice_from for union-find is only run on parent<=child inputs."),
     trusted_base=["std HashSet/BTreeSet/Vec/HashMap/BTreeMap and lattices::collections small containers modelled as lists / association lists",
